@@ -3,6 +3,7 @@ package kit
 import (
 	"go/token"
 	"go/types"
+	"strings"
 
 	"golang.org/x/tools/go/ssa"
 )
@@ -52,6 +53,13 @@ func closureSite(fn *ssa.Function) (mc *ssa.MakeClosure, site ssa.Instruction, m
 		return nil, user, useMode(user, fn)
 	}
 	refs := Referrers(mc)
+	// look through value-preserving conversions of the function value
+	for i := 0; i < len(refs); i++ {
+		if ct, ok := refs[i].(*ssa.ChangeType); ok {
+			refs = append(append(append([]ssa.Instruction{}, refs[:i]...), refs[i+1:]...), Referrers(ct)...)
+			i--
+		}
+	}
 	if len(refs) == 0 {
 		return mc, mc, "escape"
 	}
@@ -233,10 +241,43 @@ func (p *Prog) FieldAccesses(f *types.Var) []Access {
 							if n == "builtin.delete" {
 								w, kind = true, "map-delete"
 							}
-							if callee := StaticCallee(x); callee != nil && callee.Signature.Recv() != nil &&
+							if callee := StaticCallee(x); callee != nil &&
 								len(x.Common().Args) > 0 && x.Common().Args[0] == ssa.Value(u) {
-								if writerMethods[callee.Name()] {
-									w, kind = true, "container-"+callee.Name()
+								mn := callee.Name()
+								if i := strings.IndexByte(mn, '['); i >= 0 {
+									mn = mn[:i]
+								}
+								if writerMethods[mn] {
+									w, kind = true, "container-"+mn
+								}
+							}
+						case *ssa.Lookup:
+							// nested map: m[k][k2] = v / delete(m[k], k2)
+							if x.X == ssa.Value(u) {
+								vals := []ssa.Value{x}
+								if x.CommaOk {
+									vals = nil
+									for _, r3 := range Referrers(x) {
+										if ex, ok := r3.(*ssa.Extract); ok && ex.Index == 0 {
+											vals = append(vals, ex)
+										}
+									}
+								}
+								for _, v := range vals {
+									if mutatesMap(v) {
+										w, kind = true, "nested-map-update"
+									}
+								}
+							}
+						case *ssa.Range:
+							// for k, inner := range m { inner[x] = ... }
+							for _, r3 := range Referrers(x) {
+								if nx, ok := r3.(*ssa.Next); ok {
+									for _, r4 := range Referrers(nx) {
+										if ex, ok := r4.(*ssa.Extract); ok && ex.Index == 2 && mutatesMap(ex) {
+											w, kind = true, "nested-map-update"
+										}
+									}
 								}
 							}
 						}
@@ -252,6 +293,26 @@ func (p *Prog) FieldAccesses(f *types.Var) []Access {
 		})
 	}
 	return out
+}
+
+// mutatesMap: map value v is the target of a map update or delete.
+func mutatesMap(v ssa.Value) bool {
+	if _, ok := v.Type().Underlying().(*types.Map); !ok {
+		return false
+	}
+	for _, r := range Referrers(v) {
+		switch x := r.(type) {
+		case *ssa.MapUpdate:
+			if x.Map == v {
+				return true
+			}
+		case ssa.CallInstruction:
+			if CalleeName(x) == "builtin.delete" && x.Common().Args[0] == v {
+				return true
+			}
+		}
+	}
+	return false
 }
 
 // FreshObject reports whether the base object of the field access was
